@@ -50,6 +50,28 @@ def special_progs(rng):
     b = {"id": 1, "iface": 0, "conc": 3}; b2 = {"id": 2, "iface": 0, "conc": 3}
     out.append(P(synth.mkset(0, [synth.mkset(1, [], [mk(1, 3, [])], [], [], [b, b2])], [mk(2, 4, [0])]), [], 4, "dup:same-bind-twice"))
     out.append(P(synth.mkset(0, [synth.mkset(2, [synth.mkset(1, [], [mk(1, 3, [])], [], [], [b])], [], [], [], [b2])], [mk(2, 4, [0])]), [], 4, "dup:same-bind-nested"))
+    # a type whose derived local name is cleanup / cleanup2 / err, after and on a cleanup-returning provider
+    for nm in ("Cleanup", "Cleanup2", "Err", "Cleanup3"):
+        q = P(synth.mkset(0, [], [mk(1, 0, [2]), mk(2, 2, [4], cleanup=True, err=True), mk(3, 4, [], cleanup=True)]), [], 0, "none:name-" + nm, cleanup=True, err=True)
+        q["names"] = {"types": {1: nm}, "params": None, "libname": None, "app_decls": []}; q["same_pkg_name"] = False
+        out.append(q)
+        q = P(synth.mkset(0, [], [mk(1, 0, [2, 4]), mk(2, 2, [], cleanup=True, err=True), mk(3, 4, [], cleanup=True, err=True)]), [], 0, "none:name2-" + nm, cleanup=True, err=True)
+        q["names"] = {"types": {2: nm}, "params": None, "libname": None, "app_decls": []}; q["same_pkg_name"] = False
+        out.append(q)
+    # "*" struct provider with a field whose tag merely contains wire:"-" (not prevented) and whose type has no source
+    for tag in ('firewire:"-"', 'json:"x" wire:"-"', 'wire:"-" json:"y"', 'xwire:"-" '):
+        q = P(synth.mkset(0, [], [mk(1, [0, 1], [2], struct=True), mk(2, 2, [])]), [], 0, "tag:" + tag, cleanup=False, err=False)
+        q["star"] = True
+        q["extra_fields"] = {0: {"name": "X1", "t": 4, "tag": tag}}
+        if not prog.Render.prevented(tag):
+            for x in spec.all_sets(q["tree"]):
+                for pr in x["providers"]:
+                    if pr["struct"]:
+                        pr["args"] = [2, 4]; pr["fields"] = ["F0", "X1"]
+            q["defect"] = "missing:tag-not-prevented"
+        out.append(q)
+    # values of T and *T in one injector (two value variables derived from one type name)
+    out.append(P(synth.mkset(0, [], [mk(1, 0, [2, 3])], [{"id": 5, "out": 2}, {"id": 6, "out": 3}]), [], 0, "none:two-values-one-name"))
     # two parameters of one separately written composite type
     out.append(P(synth.mkset(0, [], [mk(1, 0, [3, 3]), mk(2, 3, [])]), [], 0, "dup-param:pointer"))
     out.append(P(synth.mkset(0, [synth.mkset(1, [], [mk(1, 0, [2, 5, 5]), mk(2, 5, []), mk(3, 2, [])])]), [], 0, "dup-param:pointer-nested"))
@@ -98,7 +120,7 @@ def prog_oracle(pid, p, r, o):
     if pid in ("C05", "C06", "C07", "C08", "C09", "C10", "C11", "C12"):
         msgs += props_oracle_core(pid, (tree, given, out), accepted, set_ok, set_errs, solve_errs, None,
                                   sig=(p["cleanup"], p["err"]), inject_errs=inj_errs)
-    if pid in ("C01", "C02", "C14") and accepted:
+    if pid in ("C01", "C02", "C03", "C04", "C14") and accepted:
         if "build_error" in o:
             msgs.append("wire gen succeeded but the package does not compile: " + o["build_error"][:400])
         if "readback" in o and o["readback"].get("error"):
